@@ -95,11 +95,43 @@ add("C14", "exploration",
     "Relies on __wrapped__ exposing the undecorated function; harness-side monkeypatching of the module attributes the samplers call through.",
     "DESIGN.md section 5 C14")
 
+add("C11", "exploration",
+    "property-based testing of the summary commands (through the CLI) on generated synthetic traces against a harness-side grouping model",
+    "Generated multi-chain traces with repeated/relabelled/re-serialised copies of the same trees and score ties: MAP (both modes), topology report rows/counts/scores/pointers/ranking and archive membership+content are compared with a grouping by (clades, outliers) computed on the models.",
+    "Outputs are decoded from the table + Newick files by the harness' own parser; log_p_one values are synthetic (the commands only read them).",
+    "DESIGN.md section 5 C11")
+add("C12", "exploration",
+    "property-based testing of every results table (map, consensus, topology archive) on generated traces incl. corner trees, against validity predicates and the C10 optimum oracle",
+    "Coverage (each mutation x sample once), clone ids within the Newick tree or -1, cluster cohesion and ids, outlier rows -1, CCFs on grid / feasible / optimal on the decoded tree, clonal prevalence by subtraction, and completion of all commands incl. all-outlier trees.",
+    "Harness-side Newick parser and table decoder; optimum by the independent max-plus DP of C10.",
+    "DESIGN.md section 5 C12")
+add("C16", "exploration",
+    "property-based testing of the consensus command against set-algebra majority clades on generated tree families (local-edit variants and a structured family built to reach union-of-subclades clades)",
+    "Supports are computed on the models for both weighting modes; the decoded consensus tree's clade family must equal {clade: support > threshold} exactly, uncovered points must be outliers, no exception.",
+    "Thresholds within 1e-6 of a support value are nudged away (counted).",
+    "DESIGN.md section 5 C16")
+add("C18", "exploration",
+    "differential testing of whole `phyclone run` processes under generated perturbations (hash seed, CPU affinity, per-chain delays reversing completion order)",
+    "Weakest claim: OS schedules are perturbed, not enumerated. Each generated configuration is run 4 times in fresh interpreters; per-chain traces (trees incl. labels, alpha, log_p_one as hex floats) must be identical.",
+    "Delay wrapper installed by the re-imported main module in spawn workers; `random` hash seed and reversed completion orders are observed in the run logs and reported.",
+    "DESIGN.md section 5 C18")
+add("C19", "exploration",
+    "property-based robustness testing over the CLI option cross-product with forced boundary values; exception bucketing by innermost phyclone frame; per-entry structural/finite checks",
+    "Generated valid data sets (synthetic grids or PyClone tables through phyclone.run.run) x boundary-forcing option values: the run must finish and every trace entry must be a well-formed complete tree with finite log_p_one.",
+    "Single chain in-process; grid size 11.",
+    "DESIGN.md section 5 C19")
+add("C20", "fault_enumeration",
+    "fault injection by exhaustive enumeration of every byte prefix of generated trace files, differential oracle against the complete file's outputs",
+    "For every generated trace (synthetic and real) every prefix length is fed to all 5 summary command variants; each must fail or reproduce the complete file's outputs exactly.",
+    "Assumes an interrupted write / truncation leaves a byte prefix of the file (single sequential gzip stream).",
+    "DESIGN.md section 5 C20")
+
 NOT_APPLICABLE = []
 
 def main():
     props = [json.loads(l)["id"] for l in open(os.path.join(HERE, "properties.jsonl"))]
     na = [dict(property_id=p, reason="check not built yet (work in progress); no claim made") for p in props if p not in CHECKS]
+    assert not na, na
     man = dict(
         version=1,
         setup_cmd="./setup.sh",
